@@ -8,10 +8,11 @@ pub mod p_base;
 pub mod p_conv;
 pub mod p_forms;
 pub mod p_round;
+pub mod p_text;
 pub mod selftest;
 
 use engine::Property;
 
 pub fn all_properties() -> Vec<Property> {
-    vec![p_arith::c02(), p_arith::c03(), p_arith::c04(), p_arith::c05(), p_base::c06(), p_base::c07(), p_round::c08(), p_conv::c09(), p_forms::c10(), p_base::c12()]
+    vec![p_arith::c02(), p_arith::c03(), p_arith::c04(), p_arith::c05(), p_base::c06(), p_base::c07(), p_round::c08(), p_conv::c09(), p_forms::c10(), p_base::c12(), p_arith::c19(), p_text::c20()]
 }
